@@ -20,7 +20,7 @@ fn listing(rd: &E57Reader<Dev>) -> String {
 }
 
 fn ops_for(rd: &E57Reader<Dev>, nblobs: usize) -> Vec<String> {
-    let mut ops: Vec<String> = vec!["xml".into()];
+    let mut ops: Vec<String> = vec!["xml".into(), "imgblobs".into()];
     for i in 0..rd.pointclouds().len() {
         ops.push(format!("raw{i}"));
         ops.push(format!("simple{i}"));
@@ -29,6 +29,34 @@ fn ops_for(rd: &E57Reader<Dev>, nblobs: usize) -> Vec<String> {
         ops.push(format!("blob{j}"));
     }
     ops
+}
+
+/// the content of every blob the images refer to (data and masks), in listing order
+fn image_blobs(rd: &mut E57Reader<Dev>) -> std::result::Result<String, ()> {
+    let mut blobs: Vec<Blob> = Vec::new();
+    for im in rd.images() {
+        if let Some(v) = &im.visual_reference {
+            blobs.push(v.blob.data.clone());
+            if let Some(m) = &v.mask { blobs.push(m.clone()); }
+        }
+        match &im.projection {
+            Some(Projection::Pinhole(p)) => { blobs.push(p.blob.data.clone()); if let Some(m) = &p.mask { blobs.push(m.clone()); } }
+            Some(Projection::Spherical(p)) => { blobs.push(p.blob.data.clone()); if let Some(m) = &p.mask { blobs.push(m.clone()); } }
+            Some(Projection::Cylindrical(p)) => { blobs.push(p.blob.data.clone()); if let Some(m) = &p.mask { blobs.push(m.clone()); } }
+            None => {}
+        }
+    }
+    let mut s = String::new();
+    for b in blobs {
+        let mut data = Vec::new();
+        rd.blob(&b, &mut data).map_err(|_| ())?;
+        s.push_str(&format!("{}:{:?};", data.len(), data));
+    }
+    Ok(s)
+}
+
+fn run_op(rd: &mut E57Reader<Dev>, op: &str, pcs: &[PointCloud], blobs: &[(u64, u64)]) -> std::result::Result<String, ()> {
+    if op == "imgblobs" { image_blobs(rd) } else { exec_op(rd, op, pcs, blobs) }
 }
 
 fn outcome(r: std::result::Result<std::result::Result<String, ()>, String>) -> String {
@@ -63,7 +91,7 @@ pub fn run(progs: &str, allcuts: bool, out: &str) -> std::io::Result<()> {
         // reference results: the file as it stands after every top-level finalize of the program (the last one is the
         // completed file). A prefix of the program run on a fresh device gives the same bytes (writing is deterministic).
         let fin_calls: Vec<usize> = steps.iter().enumerate().filter(|(_, s)| s["op"] == "finalize").map(|(i, _)| i).collect();
-        struct Ref { call: usize, listing: String, ops: Vec<(String, String)> }
+        struct Ref { call: usize, listing: String, ops: Vec<(String, String)>, nblobs: usize }
         let mut refs: Vec<Ref> = Vec::new();
         let mut complete_opens = false;
         for (k, fc) in fin_calls.iter().enumerate() {
@@ -80,11 +108,13 @@ pub fn run(progs: &str, allcuts: bool, out: &str) -> std::io::Result<()> {
                 let listing = listing(&rd);
                 let pcs = rd.pointclouds();
                 let mut ops = Vec::new();
-                for op in ops_for(&rd, w.blobs.len()) {
-                    let r = outcome(catch(|| exec_op(&mut rd, &op, &pcs, &w.blobs)));
+                // the direct blobs this version holds: those lying in front of its XML section
+                let nblobs = w.blobs.iter().filter(|(o, l)| o + 16 + l <= rd.header().phys_xml_offset).count();
+                for op in ops_for(&rd, nblobs) {
+                    let r = outcome(catch(|| run_op(&mut rd, &op, &pcs, &w.blobs)));
                     ops.push((op, r));
                 }
-                refs.push(Ref { call: *fc, listing, ops });
+                refs.push(Ref { call: *fc, listing, ops, nblobs });
                 if k + 1 == fin_calls.len() {
                     complete_opens = true;
                 }
@@ -134,8 +164,9 @@ pub fn run(progs: &str, allcuts: bool, out: &str) -> std::io::Result<()> {
                     let ref_ops: &[(String, String)] = matched.map(|r| &r.ops[..]).or(refs.last().map(|r| &r.ops[..])).unwrap_or(&[]);
                     let pcs = rd.pointclouds();
                     let mut classes: Vec<Value> = Vec::new();
-                    for op in ops_for(&rd, w.blobs.len()) {
-                        let got = outcome(catch(|| exec_op(&mut rd, &op, &pcs, &w.blobs)));
+                    let nb = matched.map(|r| r.nblobs).unwrap_or(w.blobs.len());
+                    for op in ops_for(&rd, nb) {
+                        let got = outcome(catch(|| run_op(&mut rd, &op, &pcs, &w.blobs)));
                         let want = ref_ops.iter().find(|(o, _)| o == &op).map(|(_, r)| r.clone());
                         let c = if got.starts_with("panic") { "panic" } else if got == "err" { "err" } else if Some(got) == want { "same" } else { "diff" };
                         classes.push(json!([op, c]));
